@@ -30,6 +30,10 @@ func genC05Map(rng *simkit.Rand, p *simkit.Plan, idx int) {
 	p.SetC("mode", 1)
 	p.SetC("kind", int64(idx/3%2)) // memory, leveldb
 	p.SetC("counters", 1)
+	if rng.Chance(1, 3) {
+		// offsets spread over hundreds of GiB (only meaningful in the 5-byte-offset build: the fifth byte differs between neighbours)
+		p.SetC("bigoff", 1)
+	}
 	nkeys := rng.Range(2, 30)
 	n := rng.Range(6, 60)
 	if rng.Chance(1, 8) {
@@ -142,9 +146,17 @@ func execC05Map(r *simkit.Run) {
 	counters := func() cnt {
 		return cnt{nm.FileCount(), nm.DeletedCount(), nm.ContentSize(), nm.DeletedSize(), nm.MaxFileKey(), nm.IndexFileSize()}
 	}
+	bigOff := p.C("bigoff") == 1 && types.OffsetSize == 5
+	strideRng := simkit.NewRand(simkit.Mix(p.Seed, 0x0ff5e7))
+	if bigOff {
+		r.Probe("offsets-above-32GiB")
+	}
 	put := func(key uint64, size int32) bool {
 		off := nextOff
 		nextOff += int64((size + 32 + 7) / 8 * 8)
+		if bigOff && nextOff < 7<<40 { // the 5-byte format addresses 8 TiB
+			nextOff += int64(strideRng.Intn(6)) << 35 // 0..160 GiB further on
+		}
 		if err := nm.Put(types.Uint64ToNeedleId(key), types.ToOffset(off), types.Size(size)); err != nil {
 			r.Violate("put-failed", KindName(kind), "Put(%d) failed: %v", key, err)
 			return false
